@@ -1,0 +1,226 @@
+//! Plain-data dump of `Grammar` + `LRTable` for external verification tooling.
+//!
+//! Compiled only with the `verif` cargo feature. Nothing here changes the
+//! behaviour of the compiler: it only copies private table data (LR items
+//! with lookaheads, actions, gotos, sorted terminals) into plain structs.
+use super::{Action, LRTable};
+use crate::grammar::{Associativity, Grammar};
+use crate::lang::rustemo_actions::{ConstVal, Recognizer};
+use crate::settings::Settings;
+
+#[derive(Debug, Clone)]
+pub enum DAction {
+    Shift(usize),
+    Reduce(usize, usize),
+    Accept,
+}
+
+#[derive(Debug, Clone)]
+pub enum DRecognizer {
+    Str(String),
+    Regex(String),
+    None,
+}
+
+#[derive(Debug, Clone)]
+pub struct DTerminal {
+    pub name: String,
+    pub prio: u32,
+    pub assoc: i8,
+    pub recognizer: DRecognizer,
+    pub has_content: bool,
+    pub reachable: bool,
+    pub annotation: Option<String>,
+    pub meta: Vec<(String, String)>,
+}
+
+#[derive(Debug, Clone)]
+pub struct DNonTerminal {
+    pub name: String,
+    pub productions: Vec<usize>,
+    pub annotation: Option<String>,
+    pub reachable: bool,
+}
+
+#[derive(Debug, Clone)]
+pub struct DProduction {
+    pub nonterminal: usize,
+    pub ntidx: usize,
+    pub rhs: Vec<usize>,
+    pub rhs_names: Vec<Option<String>>,
+    pub rhs_bool: Vec<bool>,
+    pub prio: u32,
+    pub assoc: i8,
+    pub nops: bool,
+    pub nopse: bool,
+    pub kind: Option<String>,
+    pub meta: Vec<(String, String)>,
+}
+
+#[derive(Debug, Clone)]
+pub struct DItem {
+    pub prod: usize,
+    pub position: usize,
+    pub follow: Vec<usize>,
+    pub kernel: bool,
+}
+
+#[derive(Debug, Clone)]
+pub struct DState {
+    pub symbol: usize,
+    pub items: Vec<DItem>,
+    pub actions: Vec<Vec<DAction>>,
+    pub gotos: Vec<Option<usize>>,
+    pub sorted_terminals: Vec<(usize, bool)>,
+}
+
+#[derive(Debug, Clone)]
+pub struct Dump {
+    pub terminals: Vec<DTerminal>,
+    pub nonterminals: Vec<DNonTerminal>,
+    pub productions: Vec<DProduction>,
+    pub empty_index: usize,
+    pub stop_index: usize,
+    pub augmented_index: usize,
+    pub augmented_layout_index: Option<usize>,
+    pub start_index: usize,
+    pub states: Vec<DState>,
+    pub layout_state: Option<usize>,
+    pub rn_lengths: Option<Vec<usize>>,
+}
+
+fn const_val(v: &ConstVal) -> String {
+    match v {
+        ConstVal::Int(i) => format!("int:{}", i.as_ref()),
+        ConstVal::Float(f) => format!("float:{}", f.as_ref()),
+        ConstVal::Bool(b) => format!("bool:{}", b.as_ref()),
+        ConstVal::String(s) => format!("str:{}", s.as_ref()),
+    }
+}
+
+fn assoc(a: &Associativity) -> i8 {
+    match a {
+        Associativity::None => 0,
+        Associativity::Left => 1,
+        Associativity::Right => 2,
+    }
+}
+
+pub fn dump_grammar(grammar: &Grammar) -> Dump {
+    Dump {
+        terminals: grammar
+            .terminals
+            .iter()
+            .map(|t| DTerminal {
+                name: t.name.clone(),
+                prio: t.prio,
+                assoc: assoc(&t.assoc),
+                recognizer: match &t.recognizer {
+                    Some(Recognizer::StrConst(s)) => DRecognizer::Str(s.as_ref().clone()),
+                    Some(Recognizer::RegexTerm(s)) => DRecognizer::Regex(s.as_ref().clone()),
+                    None => DRecognizer::None,
+                },
+                has_content: t.has_content,
+                reachable: t.reachable.get(),
+                annotation: t.annotation.clone(),
+                meta: t
+                    .meta
+                    .iter()
+                    .map(|(k, v)| (k.clone(), const_val(v)))
+                    .collect(),
+            })
+            .collect(),
+        nonterminals: grammar
+            .nonterminals
+            .iter()
+            .map(|n| DNonTerminal {
+                name: n.name.clone(),
+                productions: n.productions.iter().map(|p| p.0).collect(),
+                annotation: n.annotation.clone(),
+                reachable: n.reachable.get(),
+            })
+            .collect(),
+        productions: grammar
+            .productions
+            .iter()
+            .map(|p| DProduction {
+                nonterminal: p.nonterminal.0,
+                ntidx: p.ntidx,
+                rhs: p.rhs_symbols().iter().map(|s| s.0).collect(),
+                rhs_names: p
+                    .rhs
+                    .iter()
+                    .map(|a| a.name.as_ref().map(|n| n.as_ref().clone()))
+                    .collect(),
+                rhs_bool: p.rhs.iter().map(|a| a.is_bool).collect(),
+                prio: p.prio,
+                assoc: assoc(&p.assoc),
+                nops: p.nops,
+                nopse: p.nopse,
+                kind: p.kind.clone(),
+                meta: p
+                    .meta
+                    .iter()
+                    .map(|(k, v)| (k.clone(), const_val(v)))
+                    .collect(),
+            })
+            .collect(),
+        empty_index: grammar.empty_index.0,
+        stop_index: grammar.stop_index.0,
+        augmented_index: grammar.augmented_index.0,
+        augmented_layout_index: grammar.augmented_layout_index.map(|i| i.0),
+        start_index: grammar.start_index.0,
+        states: vec![],
+        layout_state: None,
+        rn_lengths: None,
+    }
+}
+
+pub fn dump_table(grammar: &Grammar, table: &LRTable) -> Dump {
+    let mut d = dump_grammar(grammar);
+    d.states = table
+        .states
+        .iter()
+        .map(|s| DState {
+            symbol: s.symbol.0,
+            items: s
+                .items
+                .iter()
+                .map(|i| DItem {
+                    prod: i.prod.0,
+                    position: i.position,
+                    follow: i.follow.borrow().iter().map(|f| f.0).collect(),
+                    kernel: i.is_kernel(),
+                })
+                .collect(),
+            actions: s
+                .actions
+                .iter()
+                .map(|acts| {
+                    acts.iter()
+                        .map(|a| match a {
+                            Action::Shift(s) => DAction::Shift(s.0),
+                            Action::Reduce(p, l) => DAction::Reduce(p.0, *l),
+                            Action::Accept => DAction::Accept,
+                        })
+                        .collect()
+                })
+                .collect(),
+            gotos: s.gotos.iter().map(|g| g.map(|s| s.0)).collect(),
+            sorted_terminals: s.sorted_terminals.iter().map(|(t, f)| (t.0, *f)).collect(),
+        })
+        .collect();
+    d.layout_state = table.layout_state.map(|s| s.0);
+    d.rn_lengths = table
+        .production_rn_lengths
+        .as_ref()
+        .map(|v| v.iter().copied().collect());
+    d
+}
+
+/// Compile grammar text to a table dump. No files are written.
+pub fn compile_str(text: &str, settings: &Settings) -> crate::Result<Dump> {
+    let grammar: Grammar = text.parse()?;
+    let table = LRTable::new(&grammar, settings)?;
+    Ok(dump_table(&grammar, &table))
+}
